@@ -2,6 +2,7 @@
 import hashlib
 import json
 import os
+import random
 import re
 import time
 
@@ -35,14 +36,71 @@ ASSUME_SM = [
 ]
 
 
-def gen_scenarios(pid, tier, seed):
+MIX = {
+    # property: scenario kinds (cycled) for the random direction
+    "C02": ("oneshot", "start", "history"),
+    "C03": ("oneshot", "oneshot", "start", "history"),
+    "C04": ("oneshot", "start", "history"),
+    "C05": ("start", "start", "oneshot", "history"),
+    "C06": ("retry", "oneshot", "retry", "start"),
+    "C07": ("oneshot", "start", "history"),
+    "C08": ("history", "history", "start", "oneshot"),
+    "C09": ("history", "history", "start", "oneshot"),
+    "C10": ("oneshot", "oneshot", "start"),
+    "C11": ("start", "start", "history"),
+    "C12": ("start", "start", "history"),
+    "C13": ("start", "history", "oneshot"),
+    "C14": ("robust",),
+    "C18": ("history", "history", "start"),
+}
+
+
+def run_harness(scs, wd, name):
+    sc_path = os.path.join(wd, name + ".scenarios.ndjson")
+    with open(sc_path, "w") as f:
+        for s in scs:
+            f.write(json.dumps(s) + "\n")
+    log_path = os.path.join(wd, name + ".log.ndjson")
+    p = vlib.run_vh(["sm", sc_path, log_path])
+    if p.returncode != 0:
+        raise vlib.ToolError("harness failed: " + p.stderr[-2000:])
+    return log_path
+
+
+def gen_scenarios(pid, tier, seed, wd):
     n = {"quick": 600, "thorough": 6000}[tier]
-    kinds = ("oneshot", "start")
-    if pid in ("C11", "C12", "C05"):
-        kinds = ("start", "start", "oneshot")
-    if pid in ("C06", "C10", "C03"):
-        kinds = ("oneshot", "oneshot", "start")
-    return scen.batch(seed * 1000 + int(pid[1:]), n, kinds)
+    base_seed = seed * 1000 + int(pid[1:])
+    if pid != "C14":
+        return scen.batch(base_seed, n, MIX[pid])
+    # C14: robustness scenarios, plus healthy scripts each followed by its storage-failure twins
+    rng = random.Random(base_seed)
+    out = scen.batch(base_seed, n // 2, ("robust",))
+    bases = []
+    for i in range(n // 30):
+        b = scen.oneshot_scenario(rng, "base-%d-%d" % (base_seed, i)) if i % 2 == 0 else \
+            scen.start_scenario(rng, "base-%d-%d" % (base_seed, i), rounds=2, ctl_p=0.2)
+        # make sure an install is attempted: that is where the related writes are
+        ids = [a["id"] for a in b["cfg"]["apps"]]
+        doc = scen.rand_doc(rng, ids, offer_p=0.9, allow_unknown=False)
+        b["ans"]["http.uc#1"] = scen.resp(200, body={"doc": doc})
+        b["ans"]["inst.plan#1"] = {"ok": ["plan1"]}
+        b["ans"]["pol.start#1"] = "ok"
+        b["ans"]["inst.install#1"] = {"results": [rng.choice(["i", "i", "d", "f"]) for _ in range(scen.n_offered(doc))],
+                                      "progress": [], "pmode": "seq"}
+        bases.append(b)
+    log0 = run_harness(bases, wd, "bases")
+    counts = {}
+    for first, sid, lines in vlib.split_log(log0):
+        c = {}
+        for l in lines:
+            for k in ("st.set", "st.rm", "st.commit"):
+                if '"k":"%s"' % k in l:
+                    c[k] = c.get(k, 0) + 1
+        counts[sid] = c
+    for b in bases:
+        out.append(b)
+        out.extend(scen.twins_of(b, counts.get(b["id"], {}), rng, max_twins=14 if tier == "quick" else 60))
+    return out
 
 
 def run_sm(pid, tier, seed, replay, t0):
@@ -53,15 +111,8 @@ def run_sm(pid, tier, seed, replay, t0):
         if rp is not None:
             scs = [rp["scenario"]]
     else:
-        scs = gen_scenarios(pid, tier, seed)
-    sc_path = os.path.join(wd, "scenarios.ndjson")
-    with open(sc_path, "w") as f:
-        for s in scs:
-            f.write(json.dumps(s) + "\n")
-    log_path = os.path.join(wd, "log.ndjson")
-    p = vlib.run_vh(["sm", sc_path, log_path])
-    if p.returncode != 0:
-        raise vlib.ToolError("harness failed: " + p.stderr[-2000:])
+        scs = gen_scenarios(pid, tier, seed, wd)
+    log_path = run_harness(scs, wd, "run")
     rejects, n_lines, mstats = vlib.monitor(log_path, pid)
     # map rejected lines to scenarios
     by_id = {s["id"]: s for s in scs}
@@ -77,10 +128,24 @@ def run_sm(pid, tier, seed, replay, t0):
             if len(samples) < 2:
                 samples.append({"scenario": sid, "log_head": [json.loads(x) for x in lines[:6]]})
     for line_no, clauses in rejects:
+        if line_no == 0:
+            # a verdict about the whole log (coverage obligation), not one line
+            names = sorted(set(c for p_, c in clauses if p_ == pid))
+            if names:
+                viols.append({"key": "%s:%s" % (pid, ",".join(names)), "replay": os.path.join(wd, "run.scenarios.ndjson"),
+                              "what": "whole log: clause(s) %s" % names})
+            continue
         for first, sid, lines in spans:
             if first <= line_no < first + len(lines):
                 names = sorted(set(c for p_, c in clauses if p_ == pid))
                 key = "%s:%s" % (pid, ",".join(names))
+                bad = lines[line_no - first]
+                if '"k":"panic"' in bad:
+                    try:
+                        pj = json.loads(bad)
+                        key += "@%s:%s" % (pj.get("loc", "?"), pj.get("msg", "?"))
+                    except ValueError:
+                        pass
                 rp = vlib.write_replay(pid, "%s.json" % sid, {
                     "property": pid, "clauses": names, "log_line": line_no - first + 1,
                     "scenario": by_id.get(sid), "log": [x.rstrip("\n") for x in lines[: line_no - first + 1]]})
@@ -116,7 +181,7 @@ NOT_YET = {}
 
 def describe(pid):
     """Manifest entry text for a property, or None when no check exists yet."""
-    if pid in SM_PROPS and pid not in ("C13", "C14", "C18"):
+    if pid in SM_PROPS and pid not in ("C13",):
         return {
             "engine": "tlc+harness",
             "design_ref": "DESIGN.md section 6 (%s), sections 3-5" % pid,
